@@ -240,6 +240,40 @@ def record_localization(nfits, seed):
     return cases, fits
 
 
+def replay_shrink(cfgs):
+    """skmatter.utils.oas against the exact rational table; effdim where the specification decides it."""
+    from skmatter.utils import effdim, oas
+    res = {"agree": 0, "disagree": []}
+    for e in cfgs:
+        cov = np.array(e["cov"], float)
+        D = len(cov)
+        n = e["n"][0] / e["n"][1]
+        want = np.array(e["num"], float) / e["den"]
+        bad = None
+        try:
+            with warnings.catch_warnings():
+                warnings.simplefilter("ignore")
+                before = cov.copy()
+                got = oas(cov, n, D)
+                if not np.array_equal(before, cov):
+                    bad = "input-modified"
+                elif got.shape != want.shape or not np.allclose(got, want, rtol=1e-10, atol=1e-12):
+                    bad = "output-differs-from-exact-table"
+                if bad is None and e["tr"] > 0:
+                    ed = float(effdim(cov))
+                    if not (1 - 1e-9 <= ed <= D + 1e-9):
+                        bad = "effdim-out-of-bounds"
+                    elif e["effdim"] and abs(ed - e["effdim"]) > 1e-6:
+                        bad = "effdim-differs"
+        except Exception as ex:  # noqa
+            bad = "raised:" + type(ex).__name__
+        if bad is None:
+            res["agree"] += 1
+        else:
+            res["disagree"].append({"config": {k: e[k] for k in ("cov", "n", "phi")}, "got": bad})
+    return res
+
+
 def run(tier):
     r = core.run_tlc("Validation.tla", cfg="mc/Validation.cfg", workers=1)
     if r["error"]:
@@ -251,7 +285,8 @@ def run(tier):
                                              "disagreements": res["disagree"][:20]})
     for name, module, fn in (("train_test_split_overlap", "SplitRef", replay_split), ("pcovr_parameter_validation", "PCovRValidation", replay_pcovr),
                              ("pcovr_route_resolution", "PCovRRoutes", replay_routes),
-                             ("regressor_handshake", "RegressorHandshake", replay_handshake)):
+                             ("regressor_handshake", "RegressorHandshake", replay_handshake),
+                             ("oas_shrinkage_and_effdim", "ShrinkRef", replay_shrink)):
         r2 = core.run_tlc(module + ".tla", cfg="mc/%s.cfg" % module, workers=1)
         if r2["error"]:
             raise core.Machinery(module + " model: " + r2["error"])
